@@ -2,6 +2,8 @@
 // Trusted/opaque here (R10): SubRenderer and RenderOptions reduced to the two fields the
 // function reads; TooNarrow/Result as in render/mod.rs.
 use vstd::prelude::*;
+macro_rules! html_trace { ($($t:tt)*) => {} }
+macro_rules! html_trace_quiet { ($($t:tt)*) => {} }
 verus! {
 //@export-begin
 struct TooNarrow;
